@@ -4,7 +4,7 @@ import NmVerif.Index.MatmulBroadcast
   MODEL of the index functions in include/nmtools/array/view/matmul.hpp (the header holds both the index and the view part):
 
     index::shape_matmul            :29-95     shapeMatmul
-    index::matmul                  :116-194   matmulSlices  (slicing arguments of the row / column taken by `matmul_t::view_at`)
+    index::matmul                  :116-225   matmulSlices  (slicing arguments of the row / column taken by `matmul_t::view_at`)
     index::matmul_rhs_transpose    :556-590   matmulRhsTranspose
     index::matmul_lhs_tile         :595-630   matmulLhsTile
     index::matmul_lhs_reshape      :635-682   matmulLhsReshape
@@ -47,27 +47,32 @@ def shapeMatmul (a b : Shape) : Option Shape :=
         | _, _ => none
   | _, _ => none
 
-/-- the non-matrix entries of one operand's slice list: `fill_non_matmul_indices` (:140-160):
-    for `i < dim-2` (only when `dim > 2`): `si == 1 ? 0 : indices[i + (matmul_dim - dim)]` -/
-def matmulBatchIdx (d : Idx) (src : Shape) (matmulDim : Nat) : Option Idx :=
+/-- the non-matrix entries of one operand's slice list: `fill_non_matmul_indices`:
+    for `i < dim-2` (only when `dim > 2`): `si == 1 ? 0 : indices[i + (batch_dim - dim)]`, where
+    `batch_dim = len(shape) + (lhs is 1-d) + (rhs is 1-d)` — the batch axes of an operand are right-aligned with the batch
+    axes of the result, which has one non-batch axis less for each 1-d operand -/
+def matmulBatchIdx (d : Idx) (src : Shape) (batchDim : Nat) : Option Idx :=
   (List.range (src.length - 2)).mapM (fun i =>
     match src[i]? with
     | none => none
-    | some si => if si = 1 then some 0 else d[i + (matmulDim - src.length)]?)
+    | some si => if si = 1 then some 0 else d[i + (batchDim - src.length)]?)
 
-/-- `index::matmul(indices, lshape, rshape, shape)`: the slice lists `(l, r)`; here as
-    `(batch index of lhs, row, batch index of rhs, col)` — the lhs slice is `[lb…, row, :]`, the rhs slice `[rb…, :, col]`.
-    `at(indices,-2)`, `at(l_slices,-2)`, `at(r_slices,-2)` need rank ≥ 2 of the result and of both operands:
-    with a 1-d operand (1-d promotion) the access is out of range ⇒ `none`. -/
-def matmulSlices (d : Idx) (ls rs dst : Shape) : Option (Idx × Nat × Idx × Nat) :=
-  match getNeg? d 2, getNeg? d 1 with
-  | some row, some col =>
-    if 2 ≤ ls.length ∧ 2 ≤ rs.length ∧ d.length = dst.length then
-      match matmulBatchIdx d ls dst.length, matmulBatchIdx d rs dst.length with
-      | some lb, some rb => some (lb, row, rb, col)
-      | _, _ => none
-    else none
-  | _, _ => none
+/-- `index::matmul(indices, lshape, rshape, shape)` (since fix C16-matmul-1d-operand: NumPy's promotion of 1-d operands):
+    the slice lists `(l, r)`; here as `(batch index of lhs, row?, batch index of rhs, col?)` — the lhs slice is
+    `[lb…, row, :]` (`[:]` for a 1-d lhs: no row), the rhs slice `[rb…, :, col]` (`[:]` for a 1-d rhs: no column).
+    The row coordinate is the last but one of the result index, or the last when the result has no column coordinate
+    (1-d rhs); the column coordinate, if any, is the last.  Reads past the result index are `none`. -/
+def matmulSlices (d : Idx) (ls rs dst : Shape) : Option (Idx × Option Nat × Idx × Option Nat) :=
+  let lVec := ls.length = 1
+  let rVec := rs.length = 1
+  let batchDim := dst.length + (if lVec then 1 else 0) + (if rVec then 1 else 0)
+  if 1 ≤ ls.length ∧ 1 ≤ rs.length ∧ d.length = dst.length then
+    let row : Option (Option Nat) := if lVec then some none else (getNeg? d (if rVec then 1 else 2)).map some
+    let col : Option (Option Nat) := if rVec then some none else (getNeg? d 1).map some
+    match row, col, matmulBatchIdx d ls batchDim, matmulBatchIdx d rs batchDim with
+    | some row, some col, some lb, some rb => some (lb, row, rb, col)
+    | _, _, _, _ => none
+  else none
 
 /-- swap the last two entries (`tmp = at(r,-1); at(r,-1) = at(r,-2); at(r,-2) = tmp`) -/
 def swapLast2 (l : List Nat) : List Nat :=
